@@ -1426,7 +1426,11 @@ impl<R: std::io::Read> std::io::Read for SignGenerator<'_, R> {
                     return Ok(0);
                 }
                 State::Error => {
-                    panic!("inconsistent state, panicked before");
+                    // An earlier read failed. Callers such as `std::io::copy` read again
+                    // after `ErrorKind::Interrupted`: report an error, the data is incomplete.
+                    return Err(std::io::Error::other(
+                        "SignGenerator errored: an earlier read failed",
+                    ));
                 }
                 State::Ops {
                     mut ops,
